@@ -7,6 +7,7 @@ package explore
 import (
 	"fmt"
 	"os"
+	"runtime"
 	"strings"
 	"time"
 
@@ -274,6 +275,11 @@ func Explore(sc *Scenario, deadline time.Time) *Result {
 		if len(e.Trace) > len(prefix) {
 			stack = append(stack, fr)
 		}
+	}
+	if os.Getenv("VERIF_DEBUG_MEM") != "" {
+		var ms runtime.MemStats
+		runtime.ReadMemStats(&ms)
+		fmt.Fprintf(os.Stderr, "DEBUG %s: execs=%d goroutines=%d heapMB=%d stackMB=%d\n", sc.Name, res.Executions, runtime.NumGoroutine(), ms.HeapAlloc>>20, ms.StackInuse>>20)
 	}
 	res.WallS = time.Since(start).Seconds()
 	return res
